@@ -172,7 +172,10 @@ def proof_stage(pid, cfg, log):
         # Print Assumptions blocks appear in order, one per theorem of the Props file
         blocks = re.findall(r"(Closed under the global context|Axioms:\n(?:.+\n?)+?(?=\n\S|\Z))", out)
         pa = re.findall(r"Print\s+Assumptions\s+([A-Za-z0-9_']+)", src)
-        blocks = parse_assumption_blocks(out)
+        # only the output of the Props file itself (compiled last: it depends on the whole cone); other files of
+        # the cone may print their own "Closed under the global context" lines on a cold build
+        k = out.rfind("COQC " + props)
+        blocks = parse_assumption_blocks(out[k:] if k >= 0 else out)
         if len(blocks) < len(pa):
             res["failures"].append("Print Assumptions output missing (%d of %d)" % (len(blocks), len(pa)))
         for name, blk in zip(pa, blocks):
